@@ -17,7 +17,7 @@ from .. import cover, gen, itpspec, ref
 LEVEL = 'exploration'
 JOBS = {'quick': 2, 'thorough': 16}
 REQUIRED_MONITORS = ('topology_vs_truth', 'connectivity_vs_unionfind', 'copy_isolation')
-REQUIRED_CLASSES = ('numbering:gaps', 'numbering:offset', 'bonds-three-way', 'decorated', 'kind:forest', 'kind:cyclic', 'kind:disconnected-cyclic', 'bonds:exactly-n-1-disconnected', 'conditional-block-with-else',
+REQUIRED_CLASSES = ('copy:after-modification', 'numbering:gaps', 'numbering:offset', 'bonds-three-way', 'decorated', 'kind:forest', 'kind:cyclic', 'kind:disconnected-cyclic', 'bonds:exactly-n-1-disconnected', 'conditional-block-with-else',
                     'kind:chain', 'long-chain', 'multi-residue', 'connected:yes', 'connected:no',
                     'repeated-section', 'are_connected:Molecule.atoms', 'shipped')
 RULE = ('generated topology files: graph kind x size (1..3000) x atom numbering (plain/offset/gaps) x bond split over '
@@ -140,6 +140,30 @@ def check_copy(ctx, mt, rng):
     if [(a.name, a.resname, a.resid, a.index, frozenset(a.bonds)) for a in cp2] != snap2:
         ctx.violation('copy-shares-state', 'mutating the original changed the copy')
     mt[k].bonds.discard(len(mt) + 7)
+    # a topology that was modified after loading (new bond, renamed atom, renumbered / relabelled residues) is copied as
+    # it is now, not as it was loaded
+    n = len(mt)
+    full = lambda m: [(a.name, a.resname, a.resid, a.index, frozenset(a.bonds)) for a in m]
+    try:
+        if n >= 2:
+            i, j = (int(x) for x in rng.choice(n, 2, replace=False))
+            mt[i].connect(mt[j])
+        mt[int(rng.integers(0, n))].name = 'MOD'
+        mt.resids = [int(r) + 3 for r in mt.resids]
+        if rng.random() < 0.5:
+            mt.resnames = [f'M{q}' for q in range(len(mt.resnames))]
+    except Exception as exc:  # noqa
+        ctx.violation(f'topology-edit-raises:{type(exc).__name__}', str(exc)[:200])
+        return
+    ctx.hit('copy:after-modification')
+    state = full(mt)
+    cp3 = mt.copy()
+    if full(cp3) != state or not (cp3 == mt):
+        ctx.violation('copy-not-equal:after-modification', 'the copy of a topology modified after loading does not carry its current atoms / bonds / residue labels')
+        return
+    cp4 = cp3.copy()
+    if full(cp4) != state:
+        ctx.violation('copy-not-equal:after-modification', 'the copy of a copy differs from the topology it descends from')
 
 
 def run_gen(ctx, case):
